@@ -168,6 +168,11 @@ def arity(part_name, dim):
     return 2 if K is None else K
 
 
+class AmbiguousPoint(BaseException):
+    """a returned point is value-equal to the representatives of several cells and is not one of their list objects:
+    the run cannot be judged any further (inconclusive for that run, never a violation)"""
+
+
 class Hub:
     """Receives every partition construction and every make_children call of the instrumented classes."""
 
@@ -181,11 +186,17 @@ class Hub:
         self.mc_events = []  # dicts: phase, round, part, parent, was_leaf, newlayer, children
         self.listeners = []
         self.n_mc = 0
+        self.by_value = {}  # tuple(c_point) -> [nodes]
+        self.value_resolved = 0
 
     def _reg(self, part, node):
         self.nodes[id(node)] = node
         self.node_part[id(node)] = part
         self.cp_owner[id(node.get_cpoint())] = node
+        try:
+            self.by_value.setdefault(tuple(float(x) for x in node.get_cpoint()), []).append(node)
+        except (TypeError, ValueError):
+            pass
 
     def _on_partition(self, part):
         self.partitions.append(part)
@@ -225,7 +236,22 @@ class Hub:
                 f(ev)
 
     def owner(self, point):
-        return self.cp_owner.get(id(point))
+        """the cell whose representative `point` is: by identity of the list object (exact, also when the middle
+        child of an odd-K split shares its parent's centre); if the implementation hands out a copy, by value when
+        that is unambiguous; AmbiguousPoint if several cells share that centre; None if no cell has it"""
+        n = self.cp_owner.get(id(point))
+        if n is not None:
+            return n
+        try:
+            cands = self.by_value.get(tuple(float(x) for x in point), [])
+        except (TypeError, ValueError):
+            return None
+        if len(cands) == 1:
+            self.value_resolved += 1
+            return cands[0]
+        if len(cands) > 1:
+            raise AmbiguousPoint()
+        return None
 
 
 _PART_CACHE = {}
